@@ -54,6 +54,12 @@ func main() {
 			os.Exit(2)
 		}
 		c := &Ctx{Prog: p}
+		if len(os.Args) > 3 {
+			for _, l := range pathSignature(c, os.Args[2], os.Args[3]) {
+				fmt.Println(l)
+			}
+			return
+		}
 		r := fsmOf(c, os.Args[2])
 		if r == nil || r.head == nil {
 			os.Exit(2)
